@@ -42,6 +42,9 @@ pub enum Ev {
     /// `len` announced headers chained on the block with id `on`. The first one is the
     /// header of the block that `Block { parent: on, diff: 1, body: 0 }` would create next.
     Hdr { on: usize, len: u8 },
+    /// The block of the `idx`-th announced header arrives (first headers of announced chains
+    /// carry their block): competing announced headers are resolved in any order.
+    AnnBlock { idx: usize },
 }
 
 pub const BODY_CB: u8 = 0;
@@ -337,6 +340,15 @@ pub fn apply_ev(w: &mut World, ev: &Ev) -> Applied {
             Ok(()) => Applied::ConfigSet,
             Err(p) => Applied::Trap(p),
         },
+        Ev::AnnBlock { idx } => {
+            let Some(a) = w.announced.get(*idx) else { return Applied::NotApplicable };
+            let Some(b) = a.block.clone() else { return Applied::NotApplicable };
+            match w.deliver_direct(&b, Some(1)) {
+                Ok(true) => Applied::BlockAccepted,
+                Ok(false) => Applied::BlockRejected,
+                Err(p) => Applied::Trap(p),
+            }
+        }
         Ev::Hdr { on, len } => {
             let Some(first) = build_block(w, *on, BODY_CB) else {
                 return Applied::NotApplicable;
@@ -405,6 +417,8 @@ pub struct Alphabet {
     /// lengths of announced-header chains offered (on every live block)
     pub hdr_lens: Vec<u8>,
     pub max_hdr_events: usize,
+    /// offer the arrival of the blocks of announced headers
+    pub announced_blocks: bool,
 }
 
 impl Alphabet {
@@ -422,13 +436,14 @@ impl Alphabet {
             noop_ingest: false,
             hdr_lens: vec![],
             max_hdr_events: 0,
+            announced_blocks: false,
         }
     }
 
     /// `last` is the outcome of the last event of `hist`.
     pub fn enabled(&self, w: &World, hist: &[Ev], last: Option<&Applied>) -> Vec<Ev> {
         let mut evs = vec![];
-        let nblocks = hist.iter().filter(|e| matches!(e, Ev::Block { .. })).count();
+        let nblocks = hist.iter().filter(|e| matches!(e, Ev::Block { .. } | Ev::AnnBlock { .. })).count();
         let specials = hist
             .iter()
             .filter(|e| matches!(e, Ev::Block { body, .. } if *body != BODY_CB))
@@ -489,6 +504,14 @@ impl Alphabet {
             for t in &self.thresholds {
                 if *t != cur {
                     evs.push(Ev::SetThreshold(*t));
+                }
+            }
+        }
+        if self.announced_blocks && !ingesting && nblocks < self.max_blocks {
+            let tree: std::collections::HashSet<H32> = w.tree_hashes().into_iter().collect();
+            for (idx, a) in w.announced.iter().enumerate() {
+                if a.block.is_some() && !w.refm.has(&a.hash) && tree.contains(&a.prev) {
+                    evs.push(Ev::AnnBlock { idx });
                 }
             }
         }
@@ -669,7 +692,7 @@ impl<O: Oracle> Model for ChainModel<O> {
         // complete logical state + budgets used so far + monitor digest + last outcome
         // (enabledness of Ingest depends on it)
         let mut b = crate::world::full_fingerprint().to_le_bytes().to_vec();
-        let nblocks = hist.iter().filter(|e| matches!(e, Ev::Block { .. })).count() as u8;
+        let nblocks = hist.iter().filter(|e| matches!(e, Ev::Block { .. } | Ev::AnnBlock { .. })).count() as u8;
         let specials = hist
             .iter()
             .filter(|e| matches!(e, Ev::Block { body, .. } if *body != BODY_CB))
